@@ -265,3 +265,122 @@ def check_variant_selection(repo, rep):
     tp = it.methods.get("to_primitive") if it is not None else None
     ok = tp is not None and any(isinstance(s, ast.Assign) and norm(s.targets[0]).endswith(".server_response") and norm(s.value) == "self.server_response" for s in walk_no_nested(tp))
     rep.check(ok, "variant-selection", "pdu_items.UserIdentitySubItemAC.to_primitive", "primitive.server_response = self.server_response", "the decoded response bytes (possibly empty) must reach the primitive unchanged", mod=repo.mod("pdu_items"), node=tp or it.node)
+
+
+# ---- numeric parameters accept their whole wire range --------------------------------------------------
+class _Unk(Exception):
+    pass
+
+
+def _cev(e, env):
+    """concrete evaluation of the little language setter guards are written in"""
+    e = strip_cast(e)
+    if isinstance(e, ast.Constant):
+        return e.value
+    if isinstance(e, ast.Name):
+        if e.id in env:
+            return env[e.id]
+        if e.id in ("int", "float", "str", "bytes", "bool", "type", "None"):
+            return {"int": int, "float": float, "str": str, "bytes": bytes, "bool": bool, "type": type, "None": None}[e.id]
+        raise _Unk(e.id)
+    if isinstance(e, ast.Tuple) or isinstance(e, ast.List):
+        return [_cev(x, env) for x in e.elts]
+    if isinstance(e, ast.UnaryOp):
+        v = _cev(e.operand, env)
+        if isinstance(e.op, ast.Not):
+            return not v
+        if isinstance(e.op, ast.USub):
+            return -v
+        raise _Unk("unary")
+    if isinstance(e, ast.BinOp):
+        l, r = _cev(e.left, env), _cev(e.right, env)
+        ops = {ast.Add: lambda a, b: a + b, ast.Sub: lambda a, b: a - b, ast.Mult: lambda a, b: a * b, ast.Pow: lambda a, b: a ** b, ast.LShift: lambda a, b: a << b, ast.FloorDiv: lambda a, b: a // b, ast.Mod: lambda a, b: a % b, ast.BitAnd: lambda a, b: a & b}
+        if type(e.op) in ops:
+            return ops[type(e.op)](l, r)
+        raise _Unk("binop")
+    if isinstance(e, ast.BoolOp):
+        if isinstance(e.op, ast.And):
+            v = True
+            for x in e.values:
+                v = _cev(x, env)
+                if not v:
+                    return v
+            return v
+        v = False
+        for x in e.values:
+            v = _cev(x, env)
+            if v:
+                return v
+        return v
+    if isinstance(e, ast.Compare):
+        left = _cev(e.left, env)
+        for op, c in zip(e.ops, e.comparators):
+            right = _cev(c, env)
+            fn = {ast.Lt: lambda a, b: a < b, ast.LtE: lambda a, b: a <= b, ast.Gt: lambda a, b: a > b, ast.GtE: lambda a, b: a >= b, ast.Eq: lambda a, b: a == b, ast.NotEq: lambda a, b: a != b, ast.In: lambda a, b: a in b, ast.NotIn: lambda a, b: a not in b, ast.Is: lambda a, b: a is b, ast.IsNot: lambda a, b: a is not b}.get(type(op))
+            if fn is None:
+                raise _Unk("cmp")
+            if not fn(left, right):
+                return False
+            left = right
+        return True
+    if isinstance(e, ast.Call):
+        f = norm(e.func)
+        if f == "isinstance" and len(e.args) == 2:
+            v = _cev(e.args[0], env)
+            t = _cev(e.args[1], env)
+            return isinstance(v, tuple(t) if isinstance(t, list) else t)
+        if f == "range":
+            return range(*[_cev(a, env) for a in e.args])
+        if f in ("int", "abs", "len", "bool"):
+            return {"int": int, "abs": abs, "len": len, "bool": bool}[f](*[_cev(a, env) for a in e.args])
+        raise _Unk(f)
+    raise _Unk(type(e).__name__)
+
+
+def _accepts(stmts, env) -> bool:
+    """does the setter body get past its guards for this value? (False = a raise is reached)"""
+    for s in stmts:
+        if isinstance(s, ast.Raise):
+            return False
+        if isinstance(s, ast.Return):
+            return True
+        if isinstance(s, ast.If):
+            br = s.body if _cev(s.test, env) else s.orelse
+            if not _accepts(br, env):
+                return False
+            if br and isinstance(br[-1], ast.Return):
+                return True
+    return True
+
+
+# numeric quantities of PS3.7 Annex D / PS3.8 9.3 that are plain unsigned integers of the field's width
+# (everything else that is numeric on the wire is an enumeration the setter may legitimately restrict)
+NUMERIC_PARAMS = {
+    ("pdu_primitives", "MaximumLengthNotification", "maximum_length_received"): 4,
+    ("pdu_primitives", "AsynchronousOperationsWindowNegotiation", "maximum_number_operations_invoked"): 2,
+    ("pdu_primitives", "AsynchronousOperationsWindowNegotiation", "maximum_number_operations_performed"): 2,
+}
+
+
+def check_numeric_ranges(repo, rep):
+    rep.rule("numeric-range", "the setter of every plain unsigned-integer parameter accepts each value its wire field can carry (0 .. 2^(8w)-1)")
+    n = 0
+    for (mname, cname, pname), w in NUMERIC_PARAMS.items():
+        m = repo.mod(mname)
+        ci = m.classes.get(cname)
+        st = repo.lookup_method(ci, pname, "setter")[1] if ci is not None else None
+        fq = f"{mname}.{cname}.{pname}"
+        if st is None:
+            rep.defer(f"{fq}: setter vanished")
+            continue
+        param = st.args.args[1].arg
+        top = (1 << (8 * w)) - 1
+        for v in (0, 1, top - 1, top):
+            n += 1
+            try:
+                ok = _accepts(body_nodoc(st), {param: v})
+            except _Unk as exc:
+                rep.defer(f"{fq}: guard not evaluable ({exc})")
+                break
+            rep.check(ok, "numeric-range", fq, f"value {v}", f"the setter rejects {v}, which the {w}-byte field carries: a decoded item with that value cannot be converted to a primitive (to_primitive raises -> the A-ASSOCIATE PDU is treated as invalid and the association aborted), and a user cannot send it", mod=m, node=st)
+    rep.floor("numeric boundary values evaluated", n, 12)
